@@ -29,6 +29,12 @@ CHECKS["C10"] = dict(cat="exploration", tech="structure-aware mutation fuzzing (
 CHECKS["C11"] = dict(cat="exploration", tech="differential across fresh interpreter processes with different PYTHONHASHSEED + permuted/repeated accessor calls; corpus and Hypothesis-generated set-heavy scripts",
     text="Every corpus case (with its dialect and metadata), TPC-DS script and generated set-heavy script is dumped canonically in separate interpreters under 4 (quick) / 32 (thorough) hash seeds and under permuted, repeated accessor orders; all dumps must be identical (anonymous subquery names canonicalised, exports compared as sets). Sampled inputs; the hash-seed dimension is sampled too.",
     ref="DESIGN.md section 4 C11")
+CHECKS["C12"] = dict(cat="exploration", tech="Hypothesis-generated run histories executed in pristine forked processes against per-run baselines from fresh processes; fault injection through the provider extension point; threaded batches",
+    text="Histories of 2-12 runs (shared default / long-lived / fresh / faulty providers, scripts failing at each position, config scopes, tsql split cache) run in one pristine process; after every run the observation must equal the run's baseline from a fresh process and providers must answer like fresh ones. 16-thread batches are compared with sequential baselines (OS scheduler: weak evidence). Sampled histories.",
+    ref="DESIGN.md section 4 C12")
+CHECKS["C01"] = dict(cat="exploration", tech="grammar-based generation from a typed SQL IR (bounded-exhaustive skeleton product + Hypothesis random statements) against an independent reference table semantics, per accepting dialect, with a parse-shape guard",
+    text="Statements are IR values, so the expected source/target tables are known without asking sqllineage; every combination of statement kind x FROM shape x subquery position x nesting (thorough: all, under all 28 dialects that accept it; quick: a seeded fifth under ansi + 2 rotating dialects) plus random statements to depth 2-3 must report exactly the expected tables. Complete within the skeleton bound, sampled beyond.",
+    ref="DESIGN.md section 4 C01")
 NA = {}
 def main():
     props = [json.loads(l)["id"] for l in open(os.path.join(HOME, "properties.jsonl"))]
